@@ -63,6 +63,36 @@ def _numeric(env, cfg, R, e, node, depth=0):
             return f'getattr({stmt_text(e.args[0])}, <defense>)'
     if isinstance(e, ast.Call) and isinstance(e.func, ast.Name) and e.func.id in ('int', 'float') and e.args:
         return _numeric(env, cfg, R, e.args[0], node, depth + 1)
+    # next((<elt> for v in C if ...), None): the element found - numeric when <elt> is (an id drawn from a
+    # collection of ids counts: `ids = [x.id for x in xs]`)
+    if isinstance(e, ast.Call) and isinstance(e.func, ast.Name) and e.func.id == 'next' and e.args \
+            and isinstance(e.args[0], (ast.GeneratorExp, ast.ListComp)):
+        g = e.args[0]
+        return _numeric_comp_elt(env, cfg, R, g, node, depth + 1)
+    return None
+
+
+def _numeric_comp_elt(env, cfg, R, g, node, depth):
+    elt = g.elt
+    why = _numeric(env, cfg, R, elt, None, depth)
+    if why:
+        return f'next(... {why} ...)'
+    if isinstance(elt, ast.Name):
+        for gen in g.generators:
+            if isinstance(gen.target, ast.Name) and gen.target.id == elt.id:
+                it = gen.iter
+                # the collection iterated: a comprehension of ids, directly or through a local
+                src = it
+                if isinstance(it, ast.Name) and node is not None:
+                    defs = cfg.reaching(node, it.id)
+                    if len(defs) == 1 and defs[0].kind == 'stmt' and isinstance(defs[0].ast, ast.Assign):
+                        src = defs[0].ast.value
+                if isinstance(src, (ast.ListComp, ast.GeneratorExp, ast.SetComp)):
+                    w = _numeric(env, cfg, R, src.elt, None, depth)
+                    if w is None and isinstance(src.elt, ast.Attribute) and src.elt.attr == 'id':
+                        w = '.id'
+                    if w:
+                        return f'an element of [{stmt_text(src.elt)} for ...]'
     return None
 
 
@@ -98,7 +128,7 @@ def falsy(prog, resolver_of):
         for n in own_nodes(f.node):
             for e in _truth_operands(n):
                 if id(e) in seen or isinstance(e, (ast.Compare, ast.Call)) and not (
-                        isinstance(e, ast.Call) and isinstance(e.func, ast.Name) and e.func.id == 'getattr'):
+                        isinstance(e, ast.Call) and isinstance(e.func, ast.Name) and e.func.id in ('getattr', 'next')):
                     continue
                 seen.add(id(e))
                 node = cfg.owner(e)
@@ -230,6 +260,48 @@ def globalstate(prog, an):
                     out.append((None, st, f"'{stmt_text(st)}' keeps one {st.value.func.id} instance at {where} level: "
                                           f"its per-call state (e.g. MalCompiler.path) is shared by all later calls",
                                 m))
+    # mutable containers declared in a class body (shared by every instance, alive for the whole process) that a
+    # method fills through self / cls without the instance ever getting its own in __init__
+    for c in prog.classes.values():
+        if c.module.generated or c.is_dataclass:
+            continue
+        shared = {}
+        for st in c.node.body:
+            if isinstance(st, (ast.Assign, ast.AnnAssign)) and st.value is not None:
+                v = st.value
+                mutable = isinstance(v, (ast.Dict, ast.List, ast.Set)) or (
+                    isinstance(v, ast.Call) and isinstance(v.func, ast.Name) and v.func.id in (
+                        'dict', 'list', 'set', 'defaultdict', 'OrderedDict', 'Counter') )
+                tg = st.targets[0] if isinstance(st, ast.Assign) else st.target
+                if mutable and isinstance(tg, ast.Name):
+                    shared[tg.id] = st
+        if not shared:
+            continue
+        init = c.methods.get('__init__')
+        own = set()
+        if init is not None:
+            for n in own_nodes(init.node):
+                if isinstance(n, (ast.Assign, ast.AnnAssign)):
+                    tg = n.targets[0] if isinstance(n, ast.Assign) else n.target
+                    if isinstance(tg, ast.Attribute) and isinstance(tg.value, ast.Name) and tg.value.id == init.self_name:
+                        own.add(tg.attr)
+        for m in c.methods.values():
+            for n in own_nodes(m.node):
+                base = None
+                if isinstance(n, ast.Assign) and len(n.targets) == 1 and isinstance(n.targets[0], ast.Subscript):
+                    base = n.targets[0].value
+                elif isinstance(n, ast.Assign) and len(n.targets) > 1:
+                    for t in n.targets:
+                        if isinstance(t, ast.Subscript):
+                            base = t.value
+                elif isinstance(n, ast.Call) and isinstance(n.func, ast.Attribute) and \
+                        n.func.attr in (ADDERS | {'update', 'setdefault', 'extend'}):
+                    base = n.func.value
+                if isinstance(base, ast.Attribute) and isinstance(base.value, ast.Name) \
+                        and base.value.id in (m.self_name, 'cls', c.name) and base.attr in shared and base.attr not in own:
+                    out.append((m, n, f"'{stmt_text(n, 70)}' fills '{base.attr}', a container declared in the body of "
+                                      f"class {c.name} ('{stmt_text(shared[base.attr], 50)}'): it is shared by all "
+                                      f"instances and survives from one call to the next (a process-wide cache)"))
     return out
 
 
